@@ -575,7 +575,11 @@ def execute(sc, ctx):
         state = "unloaded" if not pre else "loaded"
         if k == "view":
             if gotE[0] == "ok" and (gotE[1] != gotE[3] or gotE[2] != gotE[3]):
-                raise HarnessError(f"model disagrees with the EXPLICIT index on view op{n}: {gotE!r}")
+                # "a filtered view exposes precisely the entries whose keys satisfy the filter" is claimed for
+                # every index, the explicit one included (its directory entries carry directory hashes too)
+                extra = [x for x in gotE[1] if x not in gotE[3]]
+                ctx.violate("view-filter-inexact", f"explicit-index:{'extra' if extra else 'lacking'}",
+                            f"op{n}: got {gotE[1][:6]} want {gotE[3][:6]}")
             if gotE[0] != "ok":
                 raise HarnessError(f"explicit index raised on view op{n}: {gotE!r}")
             if gotL[0] != "ok":
